@@ -50,6 +50,56 @@ theorem cache_atomic_sections : cacheSectionsOK CedarGen.FactsLock.cacheMethods 
     through `sync/atomic` only. -/
 theorem globals_once : globalsOK CedarGen.FactsLock.globals = true := by decide
 
+/-- **counter_minted_in_one_step** (session_manager.go, regenerated table): no function advances a
+    package-level variable by an atomic load followed by a separate atomic store, and
+    `GetNextSessionCounter` advances the session counter by one atomic read-modify-write. -/
+theorem counter_minted_in_one_step :
+    noSplitRMW CedarGen.FactsLock.globals = true ∧ counterRMW CedarGen.FactsLock.globals = true := by decide
+
+/-- **atomic_mints_distinct** (clause: server handshakes sharing the process do not disturb one
+    another — each mints its OWN session identifier): whatever the interleaving of any number of
+    threads, when every mint is ONE atomic fetch-and-add all values handed out are pairwise distinct. -/
+theorem atomic_mints_distinct (c : Nat) (l : List Mint.Step) (h : Mint.onlyAdds l) :
+    (Mint.run { ctr := c } l).out.Nodup :=
+  (Mint.run_adds l h { ctr := c } (by intro v hv; cases hv) List.nodup_nil).2
+
+/-- **split_mint_collides**: a mint made of an atomic load and a separate atomic store hands the same
+    value to two threads under the schedule load₁ load₂ store₁ store₂ — without any data race (why
+    `counter_minted_in_one_step` is an obligation and the race detector is not enough). -/
+theorem split_mint_collides (c : Nat) :
+    (Mint.run { ctr := c } [.load 1, .load 2, .store 1, .store 2]).out = [c + 1, c + 1] := by
+  simp [Mint.run, Mint.step]
+
+/-- **client_store_files_entry_first** (auth.go storeClientSession, regenerated table of its cache
+    calls in source order): the entry is stored before the first command mapping is made — the order
+    `store_then_map_survives_sweep` is about (`map_then_store_loses_route`: the other order). -/
+theorem client_store_files_entry_first : storeBeforeMap CedarGen.FactsLock.clientStoreCalls = true := by decide
+
+/-- **store_then_map_survives_sweep** (clause: storing and expiring from any number of goroutines):
+    `storeClientSession` files the entry FIRST and maps the commands afterwards; an expiry sweep of
+    another goroutine that runs between any two of these steps finds the entry and leaves the
+    mappings made so far — the completed handshake is routable. -/
+theorem store_then_map_survives_sweep (info : Nat → Lin.EntInfo) (c : Lin.CC) (u ck : Nat) (hx : Lin.expired info u = false) :
+    let c1 := (Lin.apply info c (.store u)).1
+    let c2 := (Lin.apply info (Lin.apply info c1 .gc).1 (.mapCmd ck (info u).key)).1
+    let c3 := (Lin.apply info c2 .gc).1
+    (ck, (info u).key) ∈ c3.cmds ∧ Lin.aget c3.sessions (info u).key = some u := by
+  intro c1 c2 c3
+  have h1 : Lin.aget c1.sessions (info u).key = some u := by simp [c1, Lin.apply, Lin.aget]
+  have hg1 : Lin.aget (Lin.apply info c1 .gc).1.sessions (info u).key = some u := by
+    simp only [Lin.apply]
+    exact Lin.aget_filter_live info c1.sessions _ u h1 hx
+  have hm2 : (ck, (info u).key) ∈ c2.cmds := by simp [c2, Lin.apply]
+  have hg2 : Lin.aget c2.sessions (info u).key = some u := by simpa [c2, Lin.apply] using hg1
+  exact Lin.sweep_keeps_live_route info c2 ck _ u hm2 hg2 hx
+
+/-- **map_then_store_loses_route**: in the other order (mappings first, entry last) a sweep in between
+    sees the mapping as an orphan and deletes it: the session ends up stored but unreachable by command. -/
+theorem map_then_store_loses_route :
+    let info : Nat → Lin.EntInfo := fun _ => { key := 7, exp := .future }
+    let c := (Lin.run info {} [.mapCmd 5 7, .gc, .store 0]).1
+    Lin.aget c.sessions 7 = some 0 ∧ c.cmds = [] := by decide
+
 /-- **invalidate_wins** (clause: no lost invalidations; post-condition "an invalidated id is
     unreachable by every lookup"). In every sequential order of cache operations (every
     linearization): once `Invalidate k` has taken effect, and until some thread `Store`s an entry
